@@ -262,17 +262,23 @@ Fixpoint enum (alphabet : str) (depth : nat) (prefix : str) : list str :=
 Definition accepted (cur : str) (xs : list str) : list (str * label) :=
   flat_map (fun x => match try_parse x cur [] with Parsed l => [(x, l)] | _ => [] end) xs.
 
+(* The accepted strings of a group with their labels, as one byte string: per entry
+   target SP pkg SP name SP subrepo '|'.  (A list of 4 000 pairs of string literals takes Coq minutes to
+   elaborate, one string literal does not.)  SP and '|' occur in no string over the enumeration alphabets
+   the harness uses, nor in its current package, so the encoding is injective there. *)
+Definition encode_accepted (l : list (str * label)) : str :=
+  flat_map (fun e : str * label =>
+              fst e ++ 32%N :: l_pkg (snd e) ++ 32%N :: l_name (snd e) ++ 32%N :: l_sub (snd e) ++ [124%N]) l.
+
 Inductive case :=
-| CEnum (alphabet : str) (depth : nat) (prefix cur : str) (acc : list (str * label))
+| CEnum (alphabet : str) (depth : nat) (prefix cur : str) (acc : str)
 | CParse (target cur subrepo : str) (out : option label)
 | CPrint (l : label) (out : str)
 | CSelect (pats others : list label) (inc mat : list (list bool))   (* Includes / Matches, one row per pattern *)
 | CParent (l out : label)
 | CSandbox (whitelist : list label) (dirs : list str) (t : sbx_target) (ok : bool)
 | CCanSee (dirs : list str) (l dep : label) (vis : list label) (out : bool)
-| CExpand (excl : list label) (pat : label) (graph : list (str * list str)) (out : list label).  (* sorted by the harness on both sides? no: see check *)
-
-Definition pair_eqb (a b : str * label) : bool := str_eqb (fst a) (fst b) && label_eqb (snd a) (snd b).
+| CExpand (excl : list label) (pat : label) (graph : list (str * list str)) (out : list label).
 
 Definition parsed_eqb (p : parsed) (o : option label) : bool :=
   match p, o with
@@ -287,7 +293,7 @@ Definition subset_eqb (a b : list label) : bool :=
 
 Definition check (c : case) : bool :=
   match c with
-  | CEnum al d pre cur acc => list_eqb pair_eqb (accepted cur (enum al d pre)) acc
+  | CEnum al d pre cur acc => str_eqb (encode_accepted (accepted cur (enum al d pre))) acc
   | CParse t cur sr out => parsed_eqb (try_parse t cur sr) out
   | CPrint l out => str_eqb (print l) out
   | CSelect pats others inc mat =>
